@@ -2,6 +2,7 @@ package nsim
 
 import (
 	"fmt"
+	"runtime/debug"
 	"sort"
 	"sync"
 	"testing/synctest"
@@ -46,6 +47,8 @@ func siteClass(site int) int {
 		return classHarness
 	case site >= skiplist.SiteSkiplistMax:
 		return classNitro
+	case site == skiplist.SiteInsertRelinkedMarked:
+		return classSkiplist
 	case site >= skiplist.SiteAcqLoad:
 		return classBarrier
 	default:
@@ -146,6 +149,8 @@ type Sched struct {
 	stallHits  int
 	abort      bool
 	abortWhy   string
+	abortStack string
+	faultAddr  uintptr
 	seq        int64
 	simTime    time.Duration
 	trace      []Seg
@@ -157,6 +162,7 @@ type Sched struct {
 	sleepSites map[int]bool
 	preempts   int // parks that happened inside a harness operation
 	inOp       int
+	siteHits   map[int]int
 	OnLock     func(t *Task)
 	OnIdle     func() // optional: called by root when nothing is runnable (before tick)
 }
@@ -168,6 +174,7 @@ func NewSched(plan SchedPlan) *Sched {
 		locks:      map[unsafe.Pointer]*Task{},
 		changePts:  map[int]bool{},
 		sitePairs:  map[[2]int]int{},
+		siteHits:   map[int]int{},
 		labelCount: map[string]int{},
 		sleepSites: map[int]bool{nitro.SiteCloseSleep: true},
 		hash:       1469598103934665603,
@@ -239,9 +246,16 @@ func (s *Sched) Go(name string, fn func()) *Task {
 	s.register(t)
 	go func() {
 		<-t.ch
+		debug.SetPanicOnFault(true)
 		defer func() {
 			if r := recover(); r != nil {
-				s.Abort(fmt.Sprintf("panic in task %s: %v", t.Name, r))
+				s.abortStack = string(debug.Stack())
+				msg := fmt.Sprintf("panic in task %s: %v", t.Name, r)
+				if fa, ok := r.(interface{ Addr() uintptr }); ok {
+					s.faultAddr = fa.Addr()
+					msg = fmt.Sprintf("memory fault in task %s at address %#x", t.Name, fa.Addr())
+				}
+				s.Abort(msg)
 			}
 			t.state = tsDone
 		}()
@@ -261,6 +275,9 @@ func (s *Sched) Abort(why string) {
 }
 
 func (s *Sched) AbortReason() string { return s.abortWhy }
+func (s *Sched) AbortStack() string  { return s.abortStack }
+func (s *Sched) FaultAddr() uintptr  { return s.faultAddr }
+func (s *Sched) SiteHits(site int) int { return s.siteHits[site] }
 
 // Stamp returns the next global event sequence number.
 func (s *Sched) Stamp() int64 {
@@ -317,6 +334,9 @@ func (s *Sched) yield(site int) {
 	t := s.cur
 	if t == nil || t.state != tsRunning {
 		return
+	}
+	if site == skiplist.SiteInsertRelinkedMarked {
+		s.siteHits[site]++
 	}
 	if s.disabled[siteClass(site)] {
 		return
@@ -678,7 +698,7 @@ var siteNames = map[int]string{
 	skiplist.SiteRelDec: "relDec", skiplist.SiteRelLatch: "relLatch", skiplist.SiteRelInsert: "relInsert",
 	skiplist.SiteRelTryLock: "relTryLock", skiplist.SiteRelTryUnlock: "relTryUnlock",
 	skiplist.SiteCleanupIter: "cleanupIter", skiplist.SiteCleanupCallb: "cleanupCallb", skiplist.SiteCleanupDelete: "cleanupDelete",
-	skiplist.SiteFlushSwap: "flushSwap", skiplist.SiteFlushAdd: "flushAdd",
+	skiplist.SiteFlushSwap: "flushSwap", skiplist.SiteFlushAdd: "flushAdd", skiplist.SiteInsertRelinkedMarked: "insertRelinkedMarked",
 	nitro.SiteDelSetLink: "delSetLink", nitro.SiteDelDeadCAS: "delDeadCAS", nitro.SiteDelAppend: "delAppend", nitro.SiteDelFlush: "delFlush",
 	nitro.SiteOpenInc: "openInc", nitro.SiteCloseDec: "closeDec", nitro.SiteCloseRetire: "closeRetire", nitro.SiteCloseMove: "closeMove",
 	nitro.SiteCloseGC: "closeGC", nitro.SiteGCTry: "gcTry", nitro.SiteGCRelease: "gcRelease", nitro.SiteCollectCheck: "collectCheck",
